@@ -93,6 +93,25 @@ fn main() {
             }
             println!("TOKENS {:?}", match tokenize(d.as_ref(), true, &args[3]) { G::Val(t) => format!("{t:?}"), G::Panic(m) => m });
         }
+        Some("astgen-stats") => {
+            let g = astgen::AstGen::load();
+            let mut errs = vec![];
+            let sts = g.statements(4000, 12345, &mut errs);
+            let ds = all_dialects();
+            let (mut ok, mut panics, mut fix) = (0, 0, 0);
+            let mut shown = 0;
+            for st in &sts {
+                match guard(|| st.to_string()) {
+                    G::Val(p) => {
+                        let mut any = false;
+                        for (_, d) in &ds { if let G::Val(Ok(v)) = parse(d.as_ref(), Opts::DEFAULT, &p) { if v.len() == 1 { any = true; if v[0].to_string() == p { fix += 1; } break; } } }
+                        if any { ok += 1; if shown < 8 { shown += 1; println!("  {}", trunc(&p, 150)); } }
+                    }
+                    G::Panic(m) => { panics += 1; if panics < 4 { println!("PANIC {m}"); } }
+                }
+            }
+            println!("generated={} deser_errs={} printed_and_accepted={} fixpoint={} display_panics={}", sts.len(), errs.len(), ok, fix, panics);
+        }
         Some("corpus-stats") => {
             let c = load_corpus();
             println!("literals={} accepted_pairs={}", c.literals.len(), c.accepted.len());
